@@ -36,6 +36,9 @@ CLAIMED = {
     "C17": ("proof", "contract-based deductive verification (pyvc VCs from the real AST, z3) of the results callback for logs of any length; bounded symbolic execution for the running statistics and the best-trial report (NaN and missing values included)",
             "Unbounded: StoreResultsCallback.on_trial_result appends exactly one row with the result's values, decision, status, trial id, full configuration and a tuner time stamp, leaves earlier rows and its argument untouched. Bounded: a trial whose configuration changed between two results is logged with the configuration at delivery; MetricsStatistics.add keeps count / min / max / sum (a NaN never replaces an extremum); print_best_metric_found returns a trial attaining the per-mode optimum and never a trial without values when another has one. One callback call per delivered result is C01's contract.",
             "A-REAL with NaN flag; numpy.inf as a large constant; the CSV round trip (pandas) and ExperimentResult.best_config are NOT covered by any check (outside the verified subset); metric/config names are fixed literals.", "5/C17"),
+    "C07": ("proof", "contract-based deductive verification: scalar VCs generated from the real AST (pyvc) and discharged by z3/cvc5 over the reals with axiomatised exp/log; native run-time contract monitoring over a parameter catalogue as bounded stand-in for round-off behaviour",
+            "Proved for all parameter values (over the reals): every sampler of Float (uniform / log / reverse-log), Integer (uniform / log) and Quantized returns a member of its domain for any value the random generator may return; Integer.cast keeps members; LogScaling is inverse; scale_from_zero_one and the continuous / integer encoders map the unit interval (incl. the EPS slack) into the bounds, _round_to_int always lands inside the bounds, and to_ndarray decodes back. Bounded (native, floats): ~170 domains with hostile bounds x 11 unit-cube points: decoded values are members, encodings lie in the unit cube, round trip to 1e-7, samples and casts are members, JSON round trip encodes identically.",
+            "A-REAL / A-TRANSC for the proved part (round-off is only seen by the native catalogue); RandomState ranges trusted; categorical / ordinal / finite-range encoders and HyperparameterRangesImpl are only in the native catalogue.", "5/C07"),
     "C04": ("proof", "contract-based deductive verification: VCs generated from the real AST (pyvc) with loop invariants and modular callee contracts, discharged by z3/cvc5; bounded-shape stand-in for the cost-aware variant and for witnesses",
             "Unbounded verification conditions (rung contents of any length, 0..3 rungs) for PromotionRungSystem (find/mark/schedule/add/report/remove) and PASHA's resource cap in on_task_schedule, from /repo's source on every run; cost-aware eligibility bounded (<=4 entries).",
             "A-REAL; SortedList contract trusted; number of rungs concrete in proof units; cost values non-negative; PASHA ranking/epsilon logic and DyHPO not covered; pyvc encoding and SMT solvers trusted.", "5/C04"),
